@@ -9,7 +9,7 @@ from . import api_scen
 from .common import (BIN, ToolError, build_harness, finish, load_findings, log, save_replay, tlc_mc,
                      validate_sharded, workdir, write_evidence, WORK, SPEC)
 
-PREFIX = {p: p + "_" for p in ("C08", "C12", "C13", "C14")}
+PREFIX = {p: p + "_" for p in ("C05", "C06", "C07", "C08", "C12", "C13", "C14", "C15", "C16", "C17", "C18")}
 
 
 def scenarios(pid, tier, seed):
